@@ -71,6 +71,7 @@ inductive Kind where
   | slabel14 | slabel19 | slabel26 | slabelAdr | slabelAdrp
   | Xd | Xn | Xm | Xa | Xt | Xt2 | Xs | Wd | Wn | Wm | Wa | Wt | Wt2 | Ws
   | conditional | Rt31 | immB5B40 | immShift64 | optLSL48 | memImm12x8
+  | St | Dt | Qt | prfopRt
   deriving DecidableEq, Repr
 
 /-- numeric `instArg` value (regenerated, `Gen.A64.arg_*`) → interpreted kind; `none` = not interpreted by the model -/
@@ -92,6 +93,8 @@ def kindOf (k : Nat) : Option Kind :=
   else if k = arg_immediate_shift_64_implicit_imm16_hw then some .immShift64
   else if k = arg_immediate_OptLSL_amount_16_0_48 then some .optLSL48
   else if k = arg_Xns_mem_optional_imm12_8_unsigned then some .memImm12x8
+  else if k = arg_St then some .St else if k = arg_Dt then some .Dt else if k = arg_Qt then some .Qt
+  else if k = arg_prfop_Rt then some .prfopRt
   else none
 
 /-- `decodeArg` (decode.go:83) for the interpreted kinds; none of these cases can return nil in the source. -/
@@ -125,6 +128,11 @@ def interpK (kd : Kind) (x : BitVec 32) : Arg :=
   | .optLSL48 => .immShift ((imm16 x).setWidth 16).toNat ((hw x * 16#32).setWidth 8).toNat
   -- decode.go:236  MemImmediate{RegSP(X0) + RegSP(x>>5&31), AddrOffset, int32(imm12 << 3)}
   | .memImm12x8 => .mem (r5 x 5) (((((x >>> 10) &&& 0xfff#32) <<< 3).setWidth 32).toInt)
+  -- decode.go:941/703/925 `S0|D0|Q0 + Reg(x&31)`, decode.go:660 `Imm_prfop(x&31)`: never nil; the value is not modelled
+  | .St => .other
+  | .Dt => .other
+  | .Qt => .other
+  | .prfopRt => .other
 
 /-- `none` here means "kind not interpreted by the model", NOT "nil". -/
 def interp (k : Nat) (x : BitVec 32) : Option Arg := (kindOf k).map (fun kd => interpK kd x)
@@ -178,6 +186,20 @@ def decodeFrom (env : Env) : List Row → Nat → BitVec 32 → Option Res
 
 /-- decode.go:41 `Decode` on an instruction word; `none` = errUnknown -/
 def decode (env : Env) (x : BitVec 32) : Option Res := decodeFrom env table 0 x
+
+/-- outcome of `Decode(src []byte)` (decode.go:41-46): `errShort`, `errUnknown`, or an instruction -/
+inductive SrcRes where
+  | short | unknown | ok (r : Res)
+  deriving DecidableEq, Repr
+
+/-- decode.go:41 `Decode` on a byte slice: fewer than 4 bytes → errShort; otherwise ONLY the first four bytes are read
+    (`binary.LittleEndian.Uint32(src)`), whatever follows -/
+def decodeSrc (env : Env) : List (BitVec 8) → SrcRes
+  | a :: b :: c :: d :: _ =>
+    match decode env ((d.setWidth 32 <<< 24) ||| (c.setWidth 32 <<< 16) ||| (b.setWidth 32 <<< 8) ||| a.setWidth 32) with
+    | some r => .ok r
+    | none => .unknown
+  | _ => .short
 
 /-- inst.go:21 `Op.String` -/
 def opName (op : Nat) : String := (opNames[op]?).getD ""
@@ -291,5 +313,12 @@ def getFuncSize (env : Env) (mem : Nat → BitVec 32) (minimal : Bool) : Nat →
         let curLen' := curLen + 4                                           -- :60
         if prologueAt mem curLen' then some curLen'                         -- :63
         else getFuncSize env mem minimal fuel curLen' (int0Found || z)
+
+/-- func_arm64.go:27-37 `GetFuncSize` WITH its cache: `cache` is `funcSizeCache[start]` before the call; returns the extent
+    and the cache entry after the call (the deferred store at :31 writes the returned length) -/
+def getFuncSizeCached (env : Env) (mem : Nat → BitVec 32) (minimal : Bool) (fuel : Nat) (cache : Option Nat) : Option (Nat × Option Nat) :=
+  match cache with
+  | some l => some (l, some l)                                                    -- :35-37 cache hit, :32 stores it again
+  | none => (getFuncSize env mem minimal fuel 0 false).map (fun n => (n, some n))  -- :32 deferred store of `length`
 
 end A64Dec
